@@ -75,7 +75,8 @@ def contract_ulpi(c):
              "frame_number": d.frame_number, "microframe_number": d.microframe_number,
              "sof_detected": d.sof_detected, "new_frame": d.new_frame}
     ts = c.unit(d, ports)
-    body(c, ts, ts.sig("translator.rx_active"), ts.sig("translator.rx_valid"), ts.sig("translator.rx_data"))
+    tr = d.utmi          # the real UTMITranslator the device built for the ULPI bus: its UTMI-side ports, by object
+    body(c, ts, ts.of(tr.rx_active), ts.of(tr.rx_valid), ts.of(tr.rx_data))
 
 
 def body(c, ts, rx_active, rx_valid, rx_data):
@@ -105,8 +106,12 @@ def body(c, ts, rx_active, rx_valid, rx_data):
     c.set_next(gM, z3.If(changes, bvc(0, 3), z3.If(repeats, gM + 1, gM)))
 
     # ---- abstraction map.  Token detector (same map as C01, on the instance inside the device):
-    fsm = ts.fsm("token_detector.fsm_state")
-    td = lambda n: ts.sig("token_detector." + n)
+    #      (the instance is found by class; its registers by its position in the hierarchy, not by the submodule name)
+    from luna.gateware.usb.usb2.packet import USBTokenDetector
+    from .c10_unsupported_requests_stall import instance_fsm, instance_sig
+    tdi = ts.instance(USBTokenDetector)
+    fsm = instance_fsm(ts, tdi)
+    td = lambda n: instance_sig(ts, tdi, n)
     c.inv("td_fsm_legal", fsm.legal())
     c.inv("td_idle", fsm.is_("IDLE") == z3.Not(inpkt))
     c.inv("td_read_pid", fsm.is_("READ_PID") == z3.And(inpkt, rx.n == 0))
